@@ -94,3 +94,6 @@ func (s *Server) VerifSessionManager() *SessionManager { return s.sessions }
 
 // VerifPool exposes the client address pool.
 func (s *Server) VerifPool() *IPPool { return s.clientIPPool }
+
+// VerifCleanupIdle runs one iteration of the idle-session cleanup ticker.
+func (s *Server) VerifCleanupIdle() int { return s.cleanupExpiredSessions() }
